@@ -175,6 +175,7 @@ Proof.
     injection H1 as <-. apply lframe_refl. }
   eapply lframe_trans; [exact L1|].
   destruct ((x >=? cl_surplus_thr cl + cl_lot cl) && af_surplus (flags_of s app asset)); [|injection H2 as <-; apply lframe_refl].
+  destruct (negb (has_asset (cs s1) (cl_asset cl) && has_asset (cs s1) (cl_secondary cl))); [discriminate|].
   apply obind_ok in H2. destruct H2 as (s2 & H2 & H3).
   eapply lframe_trans; [|exact (mapping_lframe _ _ _ _ _ H3)].
   eapply lframe_lift; [exact H2|]. intros c Hc. eapply cframe_get_amount; exact Hc.
